@@ -14,7 +14,7 @@ BASELINE_OFF = (
 
 # appended to every technique: the sequencing / provenance layer of the workloads (DESIGN.md §2.2a)
 SEQ = ("; stateful workloads: repeated calls on the same objects, inputs and returned values edited in place between calls, "
-       "varied construction paths and containers, interleaved calls (DESIGN.md §2.2a)")
+       "varied construction paths and containers, interleaved calls, the same calls in flight together on a thread pool vs alone (DESIGN.md §2.2a)")
 EXTRA = {
     "C06": "; areal pairs on a shared lattice judged by an exact cell-counting IoU reference",
     "C15": "; lossless FLAC / AIFF / W64 / CAF / AU / 24-, 32-bit and float WAV files judged against a whole-file decode",
